@@ -73,7 +73,13 @@ func linGenPool(r *common.Rand) (map[string]common.JEvent, []string) {
 		ids = append(ids, e.ID)
 		return e.ID
 	}
-	ts := func() int64 { return int64(r.Intn(6)) }
+	extreme := r.Chance(10)
+	ts := func() int64 {
+		if extreme && r.Chance(40) {
+			return common.Pick(r, common.ExtremeTS) // created_at at the ends of int64
+		}
+		return int64(r.Intn(6))
+	}
 	var regular, addressable []string
 	// versions of one addressable address (sometimes two addresses)
 	if r.Chance(75) {
@@ -101,6 +107,11 @@ func linGenPool(r *common.Rand) (map[string]common.JEvent, []string) {
 		if r.Chance(40) {
 			tags = append(tags, []string{"t", common.Pick(r, []string{"v", "w"})})
 		}
+		if r.Chance(25) {
+			// the same single-letter tag twice with a value nobody else carries, then a further tag
+			u := "u" + strconv.Itoa(len(ids))
+			tags = append(tags, []string{"t", u}, []string{"t", u}, []string{"t", "v"})
+		}
 		regular = append(regular, add(common.JEvent{PK: common.Pick(r, []string{"pa", "pb"}), TS: ts(), Kind: 1, Tags: tags}))
 	}
 	// deletion requests and their targets
@@ -121,6 +132,23 @@ func linGenPool(r *common.Rand) (map[string]common.JEvent, []string) {
 			}
 		}
 		add(e)
+	}
+	// a deletion request that names an earlier deletion request of the pool first, then a further target
+	if r.Chance(25) {
+		var k5 []string
+		for _, id := range ids {
+			if pool[id].Kind == 5 {
+				k5 = append(k5, id)
+			}
+		}
+		if len(k5) > 0 {
+			first := common.Pick(r, k5)
+			e := common.JEvent{PK: pool[first].PK, TS: ts(), Kind: 5, Tags: [][]string{{"e", first}, {"e", common.Pick(r, regular)}}}
+			if r.Chance(40) {
+				e.Tags = append(e.Tags, []string{"a", "30000:" + e.PK + ":x"})
+			}
+			add(e)
+		}
 	}
 	if r.Chance(15) {
 		add(common.JEvent{PK: "pa", TS: ts(), Kind: 20000})
